@@ -1324,7 +1324,7 @@ func faultBody(r *explore.Run, rep *report.R, sc string, bases []faultBase) {
 	seedPre(w.s, w.dest.Namespace, w.dest.Name, b.class, map[string]string{"a": "old-a"}, xrOwner, victimOwner)
 	seedPre(w.s, cmNS, "cm-conn", b.dclass, map[string]string{"a": "old-a"}, cmOwner, otherCmOwn)
 	victim := whole(w.s.Peek(secKey(sysNS, "victim-conn")))
-	inj := &xrh.FaultInjector{Run: r, Reads: true, NotFoundReads: true}
+	inj := (&xrh.FaultInjector{Run: r, Reads: true, NotFoundReads: true}).WithErrClasses(w.s)
 	w.s.Inj = inj
 	dst := secKey(cmNS, "cm-conn")
 	r.Logf("base %s", b)
